@@ -241,6 +241,12 @@ def r3_r5(ctx, F, hub):
             if hub.is_current(fl.origins(it['args'][0])):
                 oc2 = fl.outcomes(ib)
                 absent_e |= oc2.get('false' if callee(it).endswith('is_some') else 'true', set())
+        # ... or a `match` / combinator on the value itself (`current.map_or(Ok(()), |_| remove_file(..))`)
+        a0 = ct['args'][0]
+        if a0['k'] != 'const':
+            cr_ = chase_root(fl, a0)
+            for l_ in {a0['p']['l']} | ({cr_[0]} if cr_ else set()):
+                absent_e |= fl.outcomes(None, l_).get('None', set())
         for name, field, val, verb in (('PutResult', 'committed', 1, 'rename'), ('DeleteResult', 'deleted', 1, 'remove_file')):
             for bi in cfg.reachable():
                 for st in b.blocks[bi]['stmts']:
